@@ -593,7 +593,32 @@ def t_program(rng, tier):
             "refs_after_hoist": g.refs_after_hoist}
 
 
+def regression_cases():
+    """Witnesses of the repaired mechanism b6d06a5 (let-ref-in-first-iterable-not-renamed),
+    with hand-written alpha-renamed twins."""
+    pre = "(setv a 11)\n(setv b 12)\n(setv c 13)\n"
+    progs = [
+        ("(setv R (let [a 2] (sum (lfor a (range (L 1 a)) (L 2 a)))))",
+         "(setv R (do (setv a_L1 2) (sum (lfor a (range (L 1 a_L1)) (L 2 a)))))"),
+        ("(setv R (let [b [1 2]] (lfor b (L 1 b) (* b 10))))",
+         "(setv R (do (setv b_L1 [1 2]) (lfor b (L 1 b_L1) (* b 10))))"),
+        ("(setv R (let [c 3] (lfor a (range (L 1 c)) :setv c (* a 2) (L 2 c))))",
+         "(setv R (do (setv c_L1 3) (lfor a (range (L 1 c_L1)) :setv c (* a 2) (L 2 c))))"),
+        ("(defn main [] (let [a 2] (setv V (sum (gfor a (range (L 1 a)) a)))) [V (SNAP (locals))])\n"
+         "(setv R (main))",
+         "(defn main [] (do (setv a_L1 2) (setv V (sum (gfor a (range (L 1 a_L1)) a)))) [V (SNAP (locals))])\n"
+         "(setv R (main))"),
+    ]
+    for hy, twin in progs:
+        yield {"hy": pre + hy, "twin": pre + twin, "mode": "function" if "main" in hy else "module",
+               "stats": {}, "multi": ["a"], "features": ["first-iter-shadow"], "nlet": 1,
+               "regress": KNOWN_KEY}
+
+
 def cases(seed, tier, shard, nshards):
+    for j, case in enumerate(regression_cases()):
+        if j % nshards == shard:
+            yield case
     i = 0
     maxdepth = 4 if tier != "thorough" else 5
     while True:
@@ -707,6 +732,8 @@ def run_case(case):
     nontrivial = bool(case.get("multi")) and (st.get("closure_let_refs", 0) > 0 or st.get("let_assigns", 0) > 0)
     classes = ["mode:" + case["mode"], "nlet:%d" % min(case.get("nlet", 0), 6)]
     classes += ["feat:" + f for f in case.get("features", [])]
+    if case.get("regress"):
+        classes.append("regress:" + case["regress"])
     if st.get("closure_let_refs"):
         classes.append("closure-reads-let")
     if st.get("let_assigns"):
